@@ -81,6 +81,8 @@ def generate(tier):
             for durs in it.product(durations, repeat=n):
                 if n == 3 and len(set(durs)) == 1 and durs[0] != 1.0:
                     continue
+                if tier == "quick" and n == 2 and durs == (2.0, 2.0):
+                    continue  # quick: (1,1), (1,2), (2,1)
                 protocols.append((list(rows), list(durs)))
     if tier == "quick":  # a fixed set of three-step protocols
         for rows, durs in (([0, 3, 5], [1.0, 2.0, 1.0]), ([4, 1, 4], [2.0, 1.0, 1.0]), ([2, 2, 3], [1.0, 1.0, 2.0]), ([5, 0, 1], [1.0, 2.0, 2.0])):
@@ -101,7 +103,7 @@ def generate(tier):
                 pts = [cand[i] for i in sub]
                 if max(pts) <= 0.0:
                     continue
-                if tier == "quick" and start in ("param-changed", "second-cycle") and len(sub) == 3:
+                if tier == "quick" and start in ("param-changed", "second-cycle", "override") and len(sub) == 3:
                     continue  # the history-dependent start modes take all subsets of size <= 2
                 for rel in (False, True):
                     cases.append({"rows": rows, "durs": durs, "form": "time_course", "grid": sub, "relative": rel, "start": start})
@@ -115,6 +117,13 @@ def generate(tier):
                         if len(durs) == 1 and pts[-1] > b and len(pts) == 1:
                             continue  # outside the protocol
                         cases.append({"rows": rows, "durs": durs, "form": "time_course", "points": pts, "relative": rel, "start": start, "grid": []})
+            if len(durs) <= 2 and start in ("fresh", "continued", "override") and all(float(d).is_integer() for d in durs):
+                whole = [i for i, c_ in enumerate(cand) if float(c_).is_integer() and c_ > 0]
+                for r in (1, 2):
+                    for sub in it.combinations(whole, r):
+                        for rel in (False, True):
+                            cases.append({"rows": rows, "durs": durs, "form": "time_course", "grid": list(sub), "relative": rel, "start": start, "ints": True})
+                cases.append({"rows": rows, "durs": durs, "form": "protocol", "tps": 3, "start": start, "ints": True})
             if len(durs) <= 2 and start != "late":
                 for cols in ("ck", "k", "mixed"):
                     cases.append({"rows": rows, "durs": durs, "form": "protocol", "tps": 3, "start": start, "cols": cols})
@@ -138,6 +147,8 @@ def check(case):
     # the steps' dictionaries as written (k, c), with the keys the other way round, or naming k only
     shape = {"kc": dict, "ck": lambda r: dict(reversed(list(r.items()))), "k": lambda r: {"k": r["k"]}}[case.get("cols", "kc") if case.get("cols") != "mixed" else "kc"]
     steps = [(d, shape(ROWS[r])) for r, d in zip(case["rows"], case["durs"], strict=True)]
+    if case.get("ints"):  # whole-number durations written as Python ints
+        steps = [(int(d), r) for d, r in steps]
     if case.get("cols") == "mixed":  # every second step writes its dictionary the other way round
         steps = [(d, dict(reversed(list(r.items()))) if i % 2 else r) for i, (d, r) in enumerate(steps)]
     protocol = mxlpy.make_protocol(steps)
@@ -201,6 +212,8 @@ def check(case):
             rel_pts = list(case["points"]) if "points" in case else [cand[i] for i in case["grid"]]
             pts = rel_pts if case["relative"] else [start + p for p in rel_pts]
             arr = grid_obj if (grid_obj is not None and case["relative"]) else np.array(pts, dtype=float)
+            if case.get("ints"):  # ... and whole-number time points as an integer array
+                arr = np.array([int(round(p)) for p in pts], dtype=int)
             sim.simulate_protocol_time_course(protocol, arr, time_points_as_relative=case["relative"])
             requested = [start + p for p in rel_pts]
         else:
